@@ -198,9 +198,12 @@ impl Spec {
         v
     }
     /// no slot with two different final* blocks, no final* slot that is also implicitly skipped, no
-    /// final cert / notar cert of a different block in a final* slot, no final cert in a skipped slot:
-    /// what agreement (C01) guarantees; outside of it the tracker is allowed to panic
-    /// ("consensus safety violation").
+    /// two notar certs in a slot, no notar cert of a different block in a slot with a *directly*
+    /// finalized block, no final cert in a skipped slot: what agreement (C01) guarantees; outside of
+    /// it the tracker is allowed to panic ("consensus safety violation").
+    /// A block that is final* only through a descendant may have a notarized sibling (D27: one
+    /// equivocating leader suffices; C01 excludes other certified blocks only next to a directly
+    /// finalized one).  (A final cert in such a slot would make the sibling direct: two final* blocks.)
     pub fn consistent(&self) -> bool {
         let v = self.view();
         let mut by_slot: BTreeMap<u64, u64> = BTreeMap::new();
@@ -218,10 +221,8 @@ impl Spec {
                     return false;
                 }
             }
-            if let Some(h) = by_slot.get(&b.0) {
-                if *h != b.1 {
-                    return false;
-                }
+            if v.direct.iter().any(|d| d.0 == b.0 && d.1 != b.1) {
+                return false;
             }
         }
         for s in &v.impl_skipped {
@@ -244,7 +245,13 @@ impl Spec {
     }
 }
 
-/// A consistent "world": one chain from genesis, side blocks, off-chain notarizations.
+/// hash id of the notarized sibling of chain block `b` (D27)
+pub fn sibling_of(b: B) -> B {
+    (b.0, 200 + b.1)
+}
+
+/// A consistent "world": one chain from genesis, side blocks, off-chain notarizations (in slots the
+/// chain skips, and — D27 — siblings of chain blocks that are at most implicitly finalized).
 #[derive(Clone, Debug)]
 pub struct World {
     pub top: u64,
@@ -314,6 +321,17 @@ pub fn world_fops(rng: &mut Rng, w: &World) -> Vec<FOp> {
         }
         if ff {
             ops.push(FOp::FastFinal(b));
+        }
+        // D27: the chain block has no certificate of its own (it can only become implicitly finalized);
+        // a sibling in its slot holds the notarization certificate (the chain block would hold a
+        // notar-fallback certificate, which the finality tracker never sees).  Arrival order is
+        // randomised by the callers: the sibling's certificate comes before or after the walk.
+        if !is_top && !nt && !fi && !ff && rng.chance(3, 5) {
+            let sib = sibling_of(b);
+            ops.push(FOp::Notar(sib));
+            if rng.chance(1, 2) {
+                ops.push(FOp::Parent(sib, p));
+            }
         }
     }
     for (b, p) in &w.side {
